@@ -710,6 +710,19 @@ class Paths:
                     return ("const", int(gmap[n[1]]))
                 except (ValueError, TypeError):
                     return None
+            if n[0] == "const" and isinstance(n[1], str) and n[1].endswith(">") and "<" in n[1]:
+                # an associated constant of one of the helper's type parameters (`R::BITS_PER_PIXEL` in a helper generic
+                # in R): at this instantiation it is the constant of the impl the argument type selects
+                head, _, par = n[1][:-1].rpartition("<")
+                trait, _, cname = head.rpartition("::")
+                ty_ = gmap.get(par)
+                if isinstance(ty_, str) and ty_ != par and trait and cname:
+                    vals = [i_["consts"][cname].get("v") for i_ in self.prog.impls.values()
+                            if i_.get("trait") == trait and isinstance(i_.get("self_ty"), dict) and i_["self_ty"].get("adt") == ty_ and cname in i_.get("consts", {})]
+                    if len(vals) == 1 and isinstance(vals[0], (int, bool)):
+                        return ("const", vals[0])
+                    if len(vals) != 1:
+                        return ("const", "%s::%s<%s>" % (trait, cname, ty_))
             if n[0] == "call" and n[2] and any(a in gmap for a in n[2]):
                 # a call inside a generic helper that mentions the helper's type parameters: instantiate them, and let
                 # From / Into select the impl they resolve to at this instantiation
